@@ -262,6 +262,51 @@ DamageViol(r, c) ==
         ELSE {})
 
 -----------------------------------------------------------------------------
+(* Conformance layer: the entries and the file-system effects recorded for one call must be the  *)
+(* ones Wal.tla's planning operators (WalPlan / Frames, at the real constants) compute from the  *)
+(* observed pre-state.  A difference is reported as DRIFT, not as a violation: it means the code  *)
+(* no longer does its I/O the way the specification describes, so the exhaustive TLC results no   *)
+(* longer transfer to it.                                                                        *)
+IoTuple(e) == <<e.e, e.f, e.o, e.n, IF "t" \in DOMAIN e THEN e.t ELSE 0>>
+ObservedFs(io) == LET fs == SelectSeq(io, LAMBDA e : e.e \in {"W", "FL", "FS", "DS", "OP", "CR", "SL", "UL"})
+                  IN [i \in 1..Len(fs) |-> IoTuple(fs[i])]
+SnapRefs(snap) == UNION { {snap[i].recs[j][3] : j \in 1..Len(snap[i].recs)} : i \in 1..Len(snap) } \ {-1}
+
+ConfDrift(r, c, qm2) ==
+  LET call == c.cur IN
+  IF ~("st" \in DOMAIN r) \/ ~("ent" \in DOMAIN r) \/ ~c.hasPrev \/ r.res.k # "ok"
+     \/ call.op \notin {"create", "delete", "append", "truncate"} \/ IsRejectOrNoop(c.qm, call)
+  THEN {}
+  ELSE
+    LET q == call.q
+        base(qq) == RecHdr + c.qlen[qq + 1]
+        ownLen == base(q) + (IF call.op = "append" THEN SeqSumLens(call.batch) ELSE 0)
+        trk0 == {c.prevTrk[i][1] : i \in 1..Len(c.prevTrk)}
+        refsAfter == SnapRefs(r.st.snap)
+        ent == r.ent
+        posEnt == IF Len(ent) >= 1 THEN SubSeq(ent, 2, Len(ent)) ELSE <<>>
+        posKnown == \A i \in 1..Len(posEnt) : posEnt[i][2] >= 0 /\ posEnt[i][2] < c.nq
+        lens == [i \in 1..Len(posEnt) |-> base(posEnt[i][2])]
+        own == SplitEntry(c.prevW[1], c.prevW[2], ownLen, trk0)
+        gcRan == call.op \in {"truncate", "delete"} /\ GcCan(refsAfter, own.tracked, own.file)
+        expEmpty == IF gcRan THEN {qq \in QIds(c) : qm2[qq].a /\ Len(qm2[qq].recs) = 0} ELSE {}
+        ownOk == Len(ent) >= 1 /\
+                 CASE call.op = "create" -> ent[1] = <<"pos", q, 0, 0, ownLen>>
+                   [] call.op = "delete" -> ent[1] = <<"del", q, c.qm[q].next, 0, ownLen>>
+                   [] call.op = "append" -> ent[1] = <<"append", q, AppendStart(c.qm[q], call), Len(call.batch), ownLen>>
+                   [] call.op = "truncate" -> ent[1] = <<"trunc", q, call.p, 0, ownLen>>
+        posOk == posKnown /\ {posEnt[i][2] : i \in 1..Len(posEnt)} = expEmpty /\ Len(posEnt) = Cardinality(expEmpty)
+                 /\ \A i \in 1..Len(posEnt) : posEnt[i][1] = "pos" /\ posEnt[i][3] = qm2[posEnt[i][2]].next
+        deterministic == c.policy \in {"always_flush", "always_fsync", "do_nothing"}
+        expIo == CallFsPlan(call.op, ownLen, c.prevW[1], c.prevW[2], trk0, refsAfter, lens, c.policy, TRUE)
+    IN  (IF ~ownOk THEN {"the call's own WAL entry differs from the specification's"} ELSE {})
+   \cup (IF ownOk /\ ~posOk THEN {"the GC pass did not record exactly the empty queues with their next positions"} ELSE {})
+   \cup (IF ownOk /\ posOk /\ deterministic /\ c.crashfree /\ ObservedFs(r.io) # expIo
+         THEN {"file-system effects of " \o call.op \o " differ from Wal's plan"} ELSE {})
+
+ReportDrift(D) == \A m \in D : PrintT("DRIFT|" \o ToString(l) \o "|" \o ToString(ctx.run) \o "|" \o ctx.script \o "|" \o m)
+
+-----------------------------------------------------------------------------
 (* Reporting *)
 (* inside a crash continuation every violation is also a violation of the  *)
 (* property that demanded the continuation ("the recovered log is fully    *)
@@ -348,6 +393,7 @@ TrEnd ==
                              ELSE IF qm2 = pend[Len(pend)].st THEN SetLastOp(pend, NoCall)
                              ELSE Append(pend, [st |-> qm2, op |-> NoCall])
      IN /\ Report(V)
+        /\ (fatal \/ ReportDrift(ConfDrift(R, c, qm2)))
         /\ nviol' = nviol + Cardinality(V)
         /\ refObs' = IF c.c14 = 1 /\ ~c.sub THEN Append(refObs, obs) ELSE refObs
         /\ ctx' = IF fatal THEN [c EXCEPT !.dead = TRUE, !.cur = NoCall]
